@@ -2,35 +2,12 @@
     that are still present).  Each takes the abstracted input the check extracts from an
     object root; the property theorems exclude exactly these classes.
     Repaired and therefore no longer here: blank-id (commit b116ae5), version-gap (719e6a5,
-    f842f41), wide-padding (d5a9e2d). *)
+    f842f41), wide-padding (d5a9e2d), empty-pps-debug (547c92e), empty-manifest-entry (7c90d82),
+    uri-colon-segment (389bfd0). *)
 From Rocfl Require Import Base.Bytes Model.VersionNum Model.VCode.
 Open Scope N_scope.
 
-(** empty-manifest-entry: a manifest entry ["digest": []] is remembered as a known
-    digest (serde.rs:922 [digests.insert]) but never enters the PathBiMap
-    (bimap.rs:88-91), so E050 does not fire for a state that uses the digest and
-    [content_paths(..).unwrap()] (validate/mod.rs:1656-1657) panics. *)
-Definition c17_empty_manifest_entry (inv : ainv) : bool :=
-  existsb (fun e => is_nil (snd e)) (i_manifest inv).
-
-(** empty-pretty-print-set (debug builds only): PrettyPrintSet (types.rs:1353,
-    [len() - 1]) is given the filtered set of mod.rs:1671-1679, which is empty when a
-    version's state uses a digest whose two or more content paths all lie in later
-    versions. *)
-Definition c17_future_content (inv : ainv) : bool :=
-  existsb (fun vs : N * astate =>
-     existsb (fun e : N * N =>
-        match content_paths inv (snd e) with
-        | Some cps => negb (nlen cps =? 1) && forallb (fun cp : N * N => fst vs <? fst cp) cps
-        | None => false
-        end) (snd vs)) (i_versions inv).
-Definition c17_empty_pps (dbg : bool) (inv : ainv) : bool := dbg && c17_future_content inv.
-
-(** quadratic-path: validate_non_conflicting (serde.rs:1473-1487) hashes every
+(** quadratic-path: validate_non_conflicting (serde.rs:1487-1501) hashes every
     '/'-prefix of every path: slashes * length operations for one path. *)
 Definition PATH_COST_BOUND : N := 100000000.
 Definition c17_quadratic_path (slashes len : N) : bool := PATH_COST_BOUND <? slashes * len.
-
-(** uri-colon-segment: "id" or a user "address" without a valid scheme whose first path segment
-    contains ':' (":", "1:x", "%3A:") makes uriparse's URI::try_from panic inside the library. *)
-Definition c17_colon_uri (s : bytes) : bool := uri_try_from_panics s.
